@@ -15,6 +15,7 @@ import (
 	"runtime"
 	"sync"
 	"sync/atomic"
+	"time"
 
 	"github.com/btcsuite/btcd/btcec/v2"
 	"github.com/trustbloc/sidetree-go/pkg/api/operation"
@@ -47,9 +48,24 @@ type result struct {
 	Detail     string `json:"detail,omitempty"`
 }
 
+var emitMu sync.Mutex
+
 func emit(r result) {
+	emitMu.Lock()
+	defer emitMu.Unlock()
 	b, _ := json.Marshal(r)
 	fmt.Println(string(b))
+}
+
+// watchdog: a scenario that makes no progress for a while (a deadlock: nothing returns any more)
+// is reported as a failure of that scenario and ends the run; started per scenario, stopped when
+// the scenario's goroutines have all returned
+func watchdog(scenario string, calls int) func() {
+	t := time.AfterFunc(90*time.Second, func() {
+		emit(result{Scenario: scenario, Calls: calls, Mismatches: 1, Detail: "stalled: calls did not return within 90 s (deadlock)"})
+		os.Exit(0)
+	})
+	return func() { t.Stop() }
 }
 
 func snap(v interface{}, err error) string {
@@ -194,6 +210,15 @@ func main() {
 			d, _ := document.FromBytes([]byte(fmt.Sprintf(`{"publicKey":[{"id":"k%d"}]}`, i)))
 			return snap(composer.ApplyPatches(d, []patch.Patch{p1, p2}))
 		}},
+		{"compose-json-patch-kinds", func(i int) string {
+			// every RFC 6902 operation kind, index-from-the-end forms included, on unrelated documents
+			ops := []string{`[{"op":"copy","from":"/obj","path":"/copy"}]`, fmt.Sprintf(`[{"op":"add","path":"/arr/-1","value":%d}]`, i),
+				`[{"op":"remove","path":"/arr/-1"}]`, `[{"op":"move","from":"/obj","path":"/moved"}]`,
+				`[{"op":"test","path":"/obj/k","value":1},{"op":"replace","path":"/obj/k","value":2}]`, `[{"op":"copy","from":"/arr","path":"/arr2"},{"op":"remove","path":"/arr2/-1"}]`}[i%6]
+			p, _ := patch.NewJSONPatch(ops)
+			d, _ := document.FromBytes([]byte(fmt.Sprintf(`{"obj":{"k":1},"arr":[1,2,3],"n":%d}`, i)))
+			return snap(composer.ApplyPatches(d, []patch.Patch{p}))
+		}},
 		{"transform", func(i int) string {
 			ty := []string{"JsonWebKey2020", "EcdsaSecp256k1VerificationKey2019", "X25519KeyAgreementKey2019", "Bls12381G2Key2020"}[i%4]
 			d, _ := document.FromBytes([]byte(fmt.Sprintf(`{"publicKey":[{"id":"k%d","type":%q,"publicKeyBase58":"abc","purposes":["keyAgreement"]}]}`, i, ty)))
@@ -227,6 +252,7 @@ func main() {
 		}
 		failing(0)
 		got := make([]string, n)
+		stop := watchdog(sc.name, n)
 		var wg sync.WaitGroup
 		for w := 0; w < *workers; w++ {
 			wg.Add(1)
@@ -242,6 +268,7 @@ func main() {
 			}(w)
 		}
 		wg.Wait()
+		stop()
 		mism, detail := 0, ""
 		for i := range got {
 			if got[i] != expected[i] {
@@ -255,6 +282,7 @@ func main() {
 	}
 	// version provider: the very first lookups of the current version, made concurrently
 	{
+		stopWD := watchdog("verprovider", 0)
 		var mism64 int64
 		for t := 0; t < *trials*10; t++ {
 			vp, err := verprovider.New([]protocol.Version{&versionStub{"0.5", 5}, &versionStub{"0.6", 9}}, verprovider.WithCurrentProtocolVersion("0.5"))
@@ -289,10 +317,12 @@ func main() {
 		if mism64 > 0 {
 			d = "a concurrent first lookup did not return the configured current version"
 		}
+		stopWD()
 		emit(result{Scenario: "verprovider", Calls: *trials * 10 * 8, Mismatches: int(mism64), Detail: d})
 	}
 	// registries: concurrent registration and lookup behave as if performed one at a time
 	{
+		stopWD := watchdog("nsprovider", 0)
 		var mism64 int64
 		detail := ""
 		for t := 0; t < *trials; t++ {
@@ -318,9 +348,11 @@ func main() {
 				}
 			}
 		}
+		stopWD()
 		emit(result{Scenario: "nsprovider", Calls: *trials * *workers * 3, Mismatches: int(mism64), Detail: detail})
 	}
 	{
+		stopWD := watchdog("clientregistry", 0)
 		mism, detail := 0, ""
 		for t := 0; t < *trials*20; t++ {
 			reg := clientregistry.New()
@@ -362,6 +394,7 @@ func main() {
 				}
 			}
 		}
+		stopWD()
 		emit(result{Scenario: "clientregistry", Calls: *trials * 20 * 8 * 2, Mismatches: mism, Detail: detail})
 	}
 	fmt.Fprintf(os.Stderr, "vstress done GOMAXPROCS=%d\n", runtime.GOMAXPROCS(0))
